@@ -1105,6 +1105,11 @@ def b_isinstance(ip, args, kwargs):
     if isinstance(v, Sym) and v.schema:
         sch = C.SCHEMAS[v.schema]
         short = (cls.key if isinstance(cls, ClassRef) else cls.dotted).split(":")[-1].split(".")[-1]
+        hook = getattr(sch, "isinstance_hook", None)
+        if hook is not None:
+            r = hook(ip, v, short)
+            if r is not None:
+                return wrap(r) if z3.is_expr(r) else r
         if "class" in sch.attrs:
             # the concrete class is an enum attribute of the abstract object
             cname = ip.vc.concretize(mk_enum(sch.attrs["class"][1](v.t), sch.attrs["class"][2]))
